@@ -267,12 +267,17 @@ class NumpyProxy(types.ModuleType):
             out = real_np.empty((), dtype=object)
             out[()] = obj
             return out.view(SymArray)
+        if isinstance(obj, real_np.ndarray) and true_dtype(obj) == object and _is_float_dtype(k.get("dtype", a[0] if a else None)):
+            # a symbolic array stands for a float64 array: dtype=float is a no-op conversion; np.array copies
+            return obj.copy() if k.get("copy", True) is not False else obj
         return wrap(real_np.array(obj, *a, **k))
 
     @staticmethod
     def asarray(obj, *a, **k):
         if isinstance(obj, (SymFloat, Sym, CSym)):
             return NumpyProxy.array(obj)
+        if isinstance(obj, real_np.ndarray) and true_dtype(obj) == object and _is_float_dtype(k.get("dtype", a[0] if a else None)):
+            return obj  # like numpy: asarray of a float64 array with dtype=float returns the array itself
         return wrap(real_np.asarray(obj, *a, **k))
 
     # ---- transcendental / inexact on floats
